@@ -384,14 +384,26 @@ VertexHandle TetrahedralMeshTopologyKernel::collapse_edge(HalfEdgeHandle _heh)
                 // A halfedge created here takes over the values of the one it
                 // replaces; a halfedge that existed before belongs to a
                 // surviving edge and keeps its own values.
-                if (heh.edge_handle().uidx() >= first_new_edge)
-                    copy_property_elements(hf.halfedges()[j], heh);
+                if (heh.edge_handle().uidx() >= first_new_edge) {
+                    const HalfEdgeHandle old_heh = hf.halfedges()[j];
+                    copy_property_elements(old_heh, heh);
+                    // the edge itself and its other side move along
+                    copy_property_elements(opposite_halfedge_handle(old_heh),
+                                           opposite_halfedge_handle(heh));
+                    copy_property_elements(edge_handle(old_heh), edge_handle(heh));
+                }
             }
 
             HalfFaceHandle hfh = add_halfface(newHalfedges);
             newHalffaces.push_back(hfh);
-            if (hfh.face_handle().uidx() >= first_new_face)
-                copy_property_elements(c.halffaces()[hf_idx], hfh);
+            if (hfh.face_handle().uidx() >= first_new_face) {
+                const HalfFaceHandle old_hfh = c.halffaces()[hf_idx];
+                copy_property_elements(old_hfh, hfh);
+                // the face itself and its other side move along
+                copy_property_elements(opposite_halfface_handle(old_hfh),
+                                       opposite_halfface_handle(hfh));
+                copy_property_elements(face_handle(old_hfh), face_handle(hfh));
+            }
         }
 
         delete_cell(ch);
